@@ -44,6 +44,11 @@ def post_merge(counters, extra):
     counters["examples_covered"] = len(extra.get("examples", []))
 
 
+LARGE = [("sgd", {"L": 1, "mu": 0.1, "gamma": 1, "v": 1, "R": 2, "n": 33}, "quick"),            # Gram 67 x 67, 11 s
+         ("gradient_descent", {"L": 2.0, "gamma": 0.5, "n": 63}, "thorough"),                         # Gram 66 x 66, 100 s
+         ("sgd", {"L": 2.0, "mu": 0.5, "gamma": 0.5, "v": 0.5, "R": 1.5, "n": 40}, "thorough")]
+
+
 def plan(tier, seed):
     k = 4 if tier == "quick" else 120
     return [{"name": "s%d" % i, "seed": seed, "shard": i, "draws": k, "extra_path": [STANDINS]} for i in range(NSHARDS)]
@@ -62,16 +67,20 @@ def bucket(kwargs):
 
 
 def reformulate(pep):
-    """An equivalent formulation of the model: every inequality declared on the problem  e <= 0  is moved to a 1x1 LMI
-    [[-e]] >= 0 attached to the first leaf function, and a useless one-block partition is declared."""
+    """An equivalent formulation of the model: every inequality declared on the problem  e <= 0  is moved either to a 1x1 LMI
+    [[-e]] >= 0 attached to the first leaf function or to the scalar constraints of the last leaf function, and a useless
+    one-block partition is declared."""
     from PEPit.function import Function
     leaves = [f for f in Function.list_of_functions if f.get_is_leaf() and type(f).__name__ != "Function"]
     if not leaves:
         return
     keep = []
-    for c in pep.list_of_constraints:
-        if c.equality_or_inequality == "inequality":
+    for k, c in enumerate(pep.list_of_constraints):
+        if c.equality_or_inequality == "inequality" and (k + len(pep.list_of_constraints)) % 2 == 0:
             leaves[0].add_psd_matrix([[-c.expression]])
+        elif c.equality_or_inequality == "inequality":
+            # ... or to the function's own list of scalar constraints (documented Function.add_constraint), constants included
+            leaves[-1].add_constraint(c)
         else:
             keep.append(c)
     pep.list_of_constraints = keep
@@ -185,6 +194,10 @@ def run_shard(spec):
             for k, kw in enumerate(generic_draws(e, spec["seed"], spec["draws"], tag="c10")):
                 rng = random.Random("c10w/%d/%s/%d" % (spec["seed"], e["name"], k))
                 work.append((e, kw, "mosek" if rng.random() < 0.2 else "cvxpy", None))
+        # sizes beyond the ones the suite ever reaches (its largest Gram matrix is 54 x 54)
+        for name_, kw_, tier_ in LARGE:
+            if name_ in byname and entries.index(byname[name_]) % NSHARDS == spec["shard"] and (tier_ == "quick" or spec["draws"] > 4):
+                work.append((byname[name_], dict(kw_), "cvxpy", None))
         for j, (vf, base, kmap) in enumerate(VARIANTS):
             if j % NSHARDS == spec["shard"] and base in byname:
                 e = byname[base]
@@ -273,11 +286,11 @@ def run_shard(spec):
                         counters["reformulations_judged"] = counters.get("reformulations_judged", 0) + 1
                         if abs(p2 - pepit) > 1e-3 * abs(pepit) + 1e-6:
                             V("equivalent_formulation_moves_value:inequalities_as_function_lmis:%s" % e["name"],
-                              "%s(%s): %.8g as shipped, %.8g when the problem-level inequalities are written as 1x1 LMIs on a function"
+                              "%s(%s): %.8g as shipped, %.8g when the problem-level inequalities are moved to a function (1x1 LMIs / its own scalar constraints)"
                               % (e["func"], kw, pepit, p2), e, kw, wrapper)
                     elif p2 is None and st2:
                         V("equivalent_formulation_moves_value:inequalities_as_function_lmis:%s" % e["name"],
-                          "%s(%s): %.8g as shipped, no finite value when the problem-level inequalities are written as 1x1 LMIs on a function "
+                          "%s(%s): %.8g as shipped, no finite value when the problem-level inequalities are moved to a function (1x1 LMIs / its own scalar constraints) "
                           "(statuses %s)" % (e["func"], kw, pepit, st2), e, kw, wrapper)
                 except Exception as ex:
                     counters["reformulation_exceptions:" + type(ex).__name__] = counters.get("reformulation_exceptions:" + type(ex).__name__, 0) + 1
